@@ -140,17 +140,17 @@ theorem prim_rt (u : Bytes → Bool) (c : Carrier) (x : RustVal) (v : CqlVal) (n
     · exact hdec
   simp only [deserPrim, hdn, primOfVal_retag c x v n he]
 
-def TRT (u : Bytes → Bool) (c : Carrier) : Prop :=
+def TRT (u : Bytes → Bool) (fl : Flavour) (c : Carrier) : Prop :=
   ∀ (t : CqlTy) (x : RustVal), wtVal c x = true → tcheck c t = true → rtOk u c t x = true →
     embed c x ≠ .unset ∧
-    (embed c x = .null → deserCarrier u c t none = .ok x) ∧
+    (embed c x = .null → deserCarrier u fl c t none = .ok x) ∧
     (∀ body, encSpec t (embed c x) false = .ok body → body.length < 2 ^ 64 →
-      deserCarrier u c t (some body) = .ok x)
+      deserCarrier u fl c t (some body) = .ok x)
 
-def TRTTuple (u : Bytes → Bool) (cs : List Carrier) : Prop :=
+def TRTTuple (u : Bytes → Bool) (fl : Flavour) (cs : List Carrier) : Prop :=
   ∀ (ts : List CqlTy) (xs : List RustVal) (cells : Bytes), wtTuple cs xs = true → tcheckTuple cs ts = true →
     rtOkTuple u cs ts xs = true → encTupleSpec ts (embedTuple cs xs) = .ok cells →
-    deserTuple u cs ts cells = .ok xs
+    deserTuple u fl cs ts cells = .ok xs
 
 theorem view_not_special (v : CqlVal) (h1 : v ≠ .null) (h2 : v ≠ .unset) :
     ∀ w, viewOf v = w → (match w with | .null => False | .unset => False | _ => True) := by
@@ -158,12 +158,12 @@ theorem view_not_special (v : CqlVal) (h1 : v ≠ .null) (h2 : v ≠ .unset) :
   cases v <;> simp [viewOf] at h1 h2 ⊢
 
 /-- From the content statement to the item statement (what the collection / tuple loops need). -/
-theorem item_of_trt (u : Bytes → Bool) (c : Carrier) (t : CqlTy) (x : RustVal)
-    (h : embed c x ≠ .unset ∧ (embed c x = .null → deserCarrier u c t none = .ok x) ∧
+theorem item_of_trt (u : Bytes → Bool) (fl : Flavour) (c : Carrier) (t : CqlTy) (x : RustVal)
+    (h : embed c x ≠ .unset ∧ (embed c x = .null → deserCarrier u fl c t none = .ok x) ∧
       (∀ body, encSpec t (embed c x) false = .ok body → body.length < 2 ^ 64 →
-        deserCarrier u c t (some body) = .ok x))
+        deserCarrier u fl c t (some body) = .ok x))
     (cell : Bytes) (hc : encSpec t (embed c x) true = .ok cell) :
-    ItemRT (fun o => deserCarrier u c t o) cell x := by
+    ItemRT (fun o => deserCarrier u fl c t o) cell x := by
   intro rest
   by_cases hnull : embed c x = .null
   · rw [hnull, encSpec] at hc
@@ -240,37 +240,37 @@ theorem pairwiseLt_cross : ∀ (a b : List RustVal), pairwiseLt (a ++ b) = true 
     | head => exact h.1 z (List.mem_append_right _ hz)
     | tail _ hy' => exact pairwiseLt_cross a b h.2 y hy' z hz
 
-theorem insertSet_append (x : RustVal) : ∀ ys : List RustVal, (∀ y, y ∈ ys → rvCmp y x = .lt) →
-    insertSet x ys = ys ++ [x]
+theorem insertSet_append (fl : Flavour) (x : RustVal) : ∀ ys : List RustVal, (∀ y, y ∈ ys → rvCmp y x = .lt) →
+    insertSet fl x ys = ys ++ [x]
   | [], _ => rfl
   | y :: ys, h => by
     simp only [insertSet, h y List.mem_cons_self, List.cons_append,
-      insertSet_append x ys (fun z hz => h z (List.mem_cons_of_mem _ hz))]
+      insertSet_append fl x ys (fun z hz => h z (List.mem_cons_of_mem _ hz))]
 
-theorem collectSet_canon_aux : ∀ (xs acc : List RustVal), pairwiseLt (acc ++ xs) = true →
-    xs.foldl (fun a x => insertSet x a) acc = acc ++ xs
+theorem collectSet_canon_aux (fl : Flavour) : ∀ (xs acc : List RustVal), pairwiseLt (acc ++ xs) = true →
+    xs.foldl (fun a x => insertSet fl x a) acc = acc ++ xs
   | [], acc, _ => by simp
   | x :: xs, acc, h => by
     have hlt : ∀ y, y ∈ acc → rvCmp y x = .lt := fun y hy => pairwiseLt_cross acc (x :: xs) h y hy x List.mem_cons_self
-    simp only [List.foldl_cons, insertSet_append x acc hlt]
+    simp only [List.foldl_cons, insertSet_append fl x acc hlt]
     have h' : pairwiseLt ((acc ++ [x]) ++ xs) = true := by simpa [List.append_assoc] using h
-    rw [collectSet_canon_aux xs (acc ++ [x]) h']
+    rw [collectSet_canon_aux fl xs (acc ++ [x]) h']
     simp [List.append_assoc]
 
-theorem collectSet_canon (xs : List RustVal) (h : pairwiseLt xs = true) : collectSet xs = xs := by
-  have := collectSet_canon_aux xs [] (by simpa using h)
+theorem collectSet_canon (fl : Flavour) (xs : List RustVal) (h : pairwiseLt xs = true) : collectSet fl xs = xs := by
+  have := collectSet_canon_aux fl xs [] (by simpa using h)
   simpa [collectSet] using this
 
-theorem insertMap_append (kv : RustVal × RustVal) : ∀ es : List (RustVal × RustVal),
-    (∀ e, e ∈ es → rvCmp e.1 kv.1 = .lt) → insertMap kv es = es ++ [kv]
+theorem insertMap_append (fl : Flavour) (kv : RustVal × RustVal) : ∀ es : List (RustVal × RustVal),
+    (∀ e, e ∈ es → rvCmp e.1 kv.1 = .lt) → insertMap fl kv es = es ++ [kv]
   | [], _ => rfl
   | e :: es, h => by
     simp only [insertMap, h e List.mem_cons_self, List.cons_append,
-      insertMap_append kv es (fun z hz => h z (List.mem_cons_of_mem _ hz))]
+      insertMap_append fl kv es (fun z hz => h z (List.mem_cons_of_mem _ hz))]
 
-theorem collectMap_canon_aux : ∀ (kvs acc : List (RustVal × RustVal)),
+theorem collectMap_canon_aux (fl : Flavour) : ∀ (kvs acc : List (RustVal × RustVal)),
     pairwiseLt ((acc ++ kvs).map (·.1)) = true →
-    kvs.foldl (fun a kv => insertMap kv a) acc = acc ++ kvs
+    kvs.foldl (fun a kv => insertMap fl kv a) acc = acc ++ kvs
   | [], acc, _ => by simp
   | kv :: kvs, acc, h => by
     have hlt : ∀ e, e ∈ acc → rvCmp e.1 kv.1 = .lt := by
@@ -278,21 +278,21 @@ theorem collectMap_canon_aux : ∀ (kvs acc : List (RustVal × RustVal)),
       rw [List.map_append] at h
       exact pairwiseLt_cross (acc.map (·.1)) ((kv :: kvs).map (·.1)) h e.1 (List.mem_map_of_mem he) kv.1
         (by simp)
-    simp only [List.foldl_cons, insertMap_append kv acc hlt]
+    simp only [List.foldl_cons, insertMap_append fl kv acc hlt]
     have h' : pairwiseLt (((acc ++ [kv]) ++ kvs).map (·.1)) = true := by simpa [List.append_assoc] using h
-    rw [collectMap_canon_aux kvs (acc ++ [kv]) h']
+    rw [collectMap_canon_aux fl kvs (acc ++ [kv]) h']
     simp [List.append_assoc]
 
-theorem collectMap_canon (kvs : List (RustVal × RustVal)) (h : pairwiseLt (kvs.map (·.1)) = true) :
-    collectMap kvs = kvs := by
-  have := collectMap_canon_aux kvs [] (by simpa using h)
+theorem collectMap_canon (fl : Flavour) (kvs : List (RustVal × RustVal)) (h : pairwiseLt (kvs.map (·.1)) = true) :
+    collectMap fl kvs = kvs := by
+  have := collectMap_canon_aux fl kvs [] (by simpa using h)
   simpa [collectMap] using this
 
 /-- list / set columns (for `Vec` and the set carriers). -/
-theorem seq_body_rt (u : Bytes → Bool) (c : Carrier) (e : CqlTy) (xs : List RustVal) (body : Bytes)
+theorem seq_body_rt (u : Bytes → Bool) (fl : Flavour) (c : Carrier) (e : CqlTy) (xs : List RustVal) (body : Bytes)
     (post : List RustVal → List RustVal) (hpost : post xs = xs)
     (hitem : ∀ y, y ∈ xs → ∀ cell, encSpec e (embed c y) true = .ok cell →
-      ItemRT (fun o => deserCarrier u c e o) cell y)
+      ItemRT (fun o => deserCarrier u fl c e o) cell y)
     (hb : (if (xs.map (fun y => embed c y)).length > i32Max then (.error .tooManyElements : Except SerErr Bytes)
       else match concatEnc (fun v => encSpec e v true) (xs.map (fun y => embed c y)) with
         | .error er => .error er
@@ -300,7 +300,7 @@ theorem seq_body_rt (u : Bytes → Bool) (c : Carrier) (e : CqlTy) (xs : List Ru
     (match readCount body with
      | .error er => (.error er : Except DeErr RustVal)
      | .ok (n, rest) =>
-       match seqG (fun o => deserCarrier u c e o) n rest with
+       match seqG (fun o => deserCarrier u fl c e o) n rest with
        | .error er => .error er
        | .ok ys => .ok (.seq (post ys))) = .ok (.seq xs) := by
   simp only [List.length_map, concatEnc_map] at hb
@@ -314,12 +314,12 @@ theorem seq_body_rt (u : Bytes → Bool) (c : Carrier) (e : CqlTy) (xs : List Ru
       simp only [frame] at hb
       cases hb
       rw [readCount_be32 _ _ (by omega)]
-      have := seqG_rt (fun o => deserCarrier u c e o) (fun y => encSpec e (embed c y) true) xs cells [] hitem hc
+      have := seqG_rt (fun o => deserCarrier u fl c e o) (fun y => encSpec e (embed c y) true) xs cells [] hitem hc
       rw [List.append_nil] at this
       simp only [this, hpost]
 
 mutual
-theorem trt (u : Bytes → Bool) : ∀ c : Carrier, TRT u c
+theorem trt (u : Bytes → Bool) (fl : Flavour) : ∀ c : Carrier, TRT u fl c
   | .i8 => by prim_rt Carrier.i8
   | .i16 => by prim_rt Carrier.i16
   | .i32 => by prim_rt Carrier.i32
@@ -349,7 +349,7 @@ theorem trt (u : Bytes → Bool) : ∀ c : Carrier, TRT u c
       simp [viewOf] at hb
     · rename_i y
       simp only [rtOk, Bool.and_eq_true, Bool.not_eq_true'] at hrt
-      have ih := trt u c t y hwt (by simpa [tcheck] using htc) hrt.1
+      have ih := trt u fl c t y hwt (by simpa [tcheck] using htc) hrt.1
       simp only [embed]
       refine ⟨ih.1, fun hn => ?_, fun body hb hl => ?_⟩
       · rw [hn] at hrt; simp [isNullVal] at hrt
@@ -371,7 +371,7 @@ theorem trt (u : Bytes → Bool) : ∀ c : Carrier, TRT u c
     · rename_i y
       simp only [rtOk, Bool.and_eq_true, Bool.not_eq_true', Option.isSome_iff_exists] at hrt
       obtain ⟨⟨⟨v, he⟩, hry⟩, hz⟩ := hrt
-      have ih := trt u c t y hwt (by simpa [tcheck] using htc) hry
+      have ih := trt u fl c t y hwt (by simpa [tcheck] using htc) hry
       obtain ⟨n, rfl, hwn, hemb⟩ := rtOk_prim u c t y v he hry
       obtain ⟨h1, h2, h3⟩ := embedPrim_not_special c y v he
       simp only [embed]
@@ -399,8 +399,8 @@ theorem trt (u : Bytes → Bool) : ∀ c : Carrier, TRT u c
       rw [encSpec] at hb
       simp only [viewOf] at hb
       simp only [deserCarrier]
-      exact seq_body_rt u c e xs body (fun ys => ys) rfl
-        (fun y hy cell hc => item_of_trt u c e y (trt u c e y (hwt y hy) htc (hrt y hy)) cell hc) hb
+      exact seq_body_rt u fl c e xs body (fun ys => ys) rfl
+        (fun y hy cell hc => item_of_trt u fl c e y (trt u fl c e y (hwt y hy) htc (hrt y hy)) cell hc) hb
     | set e =>
       simp only [tcheck] at htc
       simp only [rtOk, List.all_eq_true] at hrt
@@ -410,8 +410,8 @@ theorem trt (u : Bytes → Bool) : ∀ c : Carrier, TRT u c
       rw [encSpec] at hb
       simp only [viewOf] at hb
       simp only [deserCarrier]
-      exact seq_body_rt u c e xs body (fun ys => ys) rfl
-        (fun y hy cell hc => item_of_trt u c e y (trt u c e y (hwt y hy) htc (hrt y hy)) cell hc) hb
+      exact seq_body_rt u fl c e xs body (fun ys => ys) rfl
+        (fun y hy cell hc => item_of_trt u fl c e y (trt u fl c e y (hwt y hy) htc (hrt y hy)) cell hc) hb
     | vector e dim =>
       simp only [tcheck] at htc
       simp only [rtOk, Bool.and_eq_true, List.all_eq_true, beq_iff_eq, Bool.not_eq_true'] at hrt
@@ -433,10 +433,10 @@ theorem trt (u : Bytes → Bool) : ∀ c : Carrier, TRT u c
           rw [hc] at hb
           simp only [frame] at hb
           cases hb
-          have := vecFixedG_rt (fun o => deserCarrier u c e o) (fun y => embed c y)
+          have := vecFixedG_rt (fun o => deserCarrier u fl c e o) (fun y => embed c y)
             (fun v => encSpec e v false) size xs body
             (fun y hy eb heb hle =>
-              ⟨(trt u c e y (hwt y hy) htc (hall y hy).1).2.2 eb heb hle,
+              ⟨(trt u fl c e y (hwt y hy) htc (hall y hy).1).2.2 eb heb hle,
                sz_all u e (embed c y) eb size (hfix y hy).1 (hfix y hy).2 hs heb⟩) hc hlt
           rw [hlen] at this
           simp only [this]
@@ -449,9 +449,9 @@ theorem trt (u : Bytes → Bool) : ∀ c : Carrier, TRT u c
           rw [hc] at hb
           simp only [frame] at hb
           cases hb
-          have := vecVarG_rt (fun o => deserCarrier u c e o) (fun y => embed c y)
+          have := vecVarG_rt (fun o => deserCarrier u fl c e o) (fun y => embed c y)
             (fun v => encSpec e v false) xs body
-            (fun y hy eb heb hle => (trt u c e y (hwt y hy) htc (hall y hy).1).2.2 eb heb hle) hc hlt
+            (fun y hy eb heb hle => (trt u fl c e y (hwt y hy) htc (hall y hy).1).2.2 eb heb hle) hc hlt
           rw [hlen] at this
           simp only [this]
     | native n => simp [tcheck] at htc
@@ -472,8 +472,8 @@ theorem trt (u : Bytes → Bool) : ∀ c : Carrier, TRT u c
       rw [encSpec] at hb
       simp only [viewOf] at hb
       simp only [deserCarrier]
-      exact seq_body_rt u c e xs body collectSet (collectSet_canon xs hrt.2)
-        (fun y hy cell hc => item_of_trt u c e y (trt u c e y (hwt y hy) htc (hrt.1.2 y hy)) cell hc) hb
+      exact seq_body_rt u fl c e xs body (collectSet fl) (collectSet_canon fl xs hrt.2)
+        (fun y hy cell hc => item_of_trt u fl c e y (trt u fl c e y (hwt y hy) htc (hrt.1.2 y hy)) cell hc) hb
     | native n => simp [tcheck] at htc
     | list e => simp [tcheck] at htc
     | vector e d => simp [tcheck] at htc
@@ -506,16 +506,16 @@ theorem trt (u : Bytes → Bool) : ∀ c : Carrier, TRT u c
           simp only [frame] at hb
           cases hb
           rw [readCount_be32 _ _ (by omega)]
-          have := mapG_rt (fun o => deserCarrier u k kt o) (fun o => deserCarrier u v vt o)
+          have := mapG_rt (fun o => deserCarrier u fl k kt o) (fun o => deserCarrier u fl v vt o)
             (fun y => embed k y) (fun y => embed v y) (fun k' => encSpec kt k' true) (fun v' => encSpec vt v' true)
             kvs cells []
             (fun kv hkv =>
-              ⟨fun cell hcell => item_of_trt u k kt kv.1
-                  (trt u k kt kv.1 (hwt kv.1 kv.2 hkv).1 htc.1 (hrt kv hkv).1) cell hcell,
-               fun cell hcell => item_of_trt u v vt kv.2
-                  (trt u v vt kv.2 (hwt kv.1 kv.2 hkv).2 htc.2 (hrt kv hkv).2) cell hcell⟩) hc
+              ⟨fun cell hcell => item_of_trt u fl k kt kv.1
+                  (trt u fl k kt kv.1 (hwt kv.1 kv.2 hkv).1 htc.1 (hrt kv hkv).1) cell hcell,
+               fun cell hcell => item_of_trt u fl v vt kv.2
+                  (trt u fl v vt kv.2 (hwt kv.1 kv.2 hkv).2 htc.2 (hrt kv hkv).2) cell hcell⟩) hc
           rw [List.append_nil] at this
-          simp only [this, collectMap_canon kvs hcanon]
+          simp only [this, collectMap_canon fl kvs hcanon]
     | native n => simp [tcheck] at htc
     | list e => simp [tcheck] at htc
     | set e => simp [tcheck] at htc
@@ -544,7 +544,7 @@ theorem trt (u : Bytes → Bool) : ∀ c : Carrier, TRT u c
         rw [hc] at hb
         simp only [frame] at hb
         cases hb
-        simp only [trtTuple u cs ts xs body hwt htc hrt hc]
+        simp only [trtTuple u fl cs ts xs body hwt htc hrt hc]
     | native n => simp [tcheck] at htc
     | list e => simp [tcheck] at htc
     | set e => simp [tcheck] at htc
@@ -552,7 +552,7 @@ theorem trt (u : Bytes → Bool) : ∀ c : Carrier, TRT u c
     | map a b => simp [tcheck] at htc
     | udt a b d => simp [tcheck] at htc
   | .dyn => by intro t x _ _ hrt; simp [rtOk] at hrt
-theorem trtTuple (u : Bytes → Bool) : ∀ cs : List Carrier, TRTTuple u cs
+theorem trtTuple (u : Bytes → Bool) (fl : Flavour) : ∀ cs : List Carrier, TRTTuple u fl cs
   | [] => by
     intro ts xs cells hwt htc _ _
     cases xs with
@@ -581,11 +581,11 @@ theorem trtTuple (u : Bytes → Bool) : ∀ cs : List Carrier, TRTTuple u cs
           | ok r =>
             rw [hr] at hc
             cases hc
-            obtain ⟨o, hread, hf⟩ := item_of_trt u c t x (trt u c t x hwt.1 htc.1 hrt.1) c1 h1 r
+            obtain ⟨o, hread, hf⟩ := item_of_trt u fl c t x (trt u fl c t x hwt.1 htc.1 hrt.1) c1 h1 r
             have hne := readCqlBytes_ok_nonempty _ _ hread
             simp only at hf
             simp only [deserTuple, hne, Bool.false_eq_true, if_false, hread, hf,
-              trtTuple u cs ts xs r hwt.2 htc.2 hrt.2 hr]
+              trtTuple u fl cs ts xs r hwt.2 htc.2 hrt.2 hr]
 end
 
 end ScyllaVerif.Proofs.TypedRT
